@@ -12,6 +12,7 @@ import (
 	"path/filepath"
 	"strings"
 	"sync"
+	"sync/atomic"
 	"testing"
 	"time"
 
@@ -36,6 +37,7 @@ type Case struct {
 	Seed            int64  // value the process-global math/rand is seeded with (reseed kinds)
 	G               int32
 	Password        string
+	Draws           int            `json:",omitempty"` // many-draws: number of (nonce, new_nonce) pairs drawn in one process
 	StallMs         int            `json:",omitempty"` // stalled-os-source: delay of every read of the OS source
 	SecureRandomLen int            `json:",omitempty"` // srp-distinct: length of the server's secure_random
 	Prime           string         `json:",omitempty"` // reseed-exponent-params: dh_prime (hex) as a server may send it; the client does not validate it
@@ -165,6 +167,27 @@ func oracle(c *Case) error {
 			for i, name := range []string{"nonce", "new_nonce", "the DH exponent b"} {
 				if p1[i] == p2[i] {
 					return fmt.Errorf("%s is reproducible when the OS random source stalls for %d ms per read: reseeding the process-global math/rand with %d yields the same value twice (%s…)", name, c.StallMs, c.Seed, p1[i][:16])
+				}
+			}
+		case "many-draws":
+			// very many key exchanges in one process: nonce and new_nonce are drawn c.Draws times through a counting
+			// reader. At every moment the OS source must have handed out at least as many bytes as the secrets drawn so
+			// far contain, and no secret ends or begins in a run of zero bytes.
+			real := cryptorand.Reader
+			cr := &countingReader{r: real}
+			cryptorand.Reader = cr
+			defer func() { cryptorand.Reader = real }()
+			secret := int64(0)
+			for i := 0; i < c.Draws; i++ {
+				n1, n2 := tl.RandomInt128(), tl.RandomInt256()
+				secret += 16 + 32
+				if got := atomic.LoadInt64(&cr.n); got < secret {
+					return fmt.Errorf("after %d key exchanges' worth of nonces (%d bytes of secrets) the OS random source has handed out only %d bytes: some of those bytes do not come from it", i+1, secret, got)
+				}
+				for name, v := range map[string][]byte{"nonce": ref.LeftPad(n1.Bytes(), 16), "new_nonce": ref.LeftPad(n2.Bytes(), 32)} {
+					if bytes.Equal(v[:8], make([]byte, 8)) || bytes.Equal(v[len(v)-8:], make([]byte, 8)) {
+						return fmt.Errorf("%s number %d of a process is %x: eight zero bytes at an end (chance 2^-63 for OS randomness)", name, i+1, v)
+					}
 				}
 			}
 		case "srp-distinct":
@@ -309,6 +332,17 @@ func TestC19(t *testing.T) {
 			run.Violation(c, err.Error())
 			t.Fatalf("replay fails: %v", err)
 		}
+		return
+	}
+	t.Run("many-draws", func(t *testing.T) {
+		c := &Case{Kind: "many-draws", Draws: run.Pick(700, 20000), Seed: int64(run.Seed)}
+		run.Case(true, evid.Hash(c.Kind, c.Draws, run.Shard), "kind:"+c.Kind)
+		if err := oracle(c); err != nil {
+			p := run.ViolationNamed("many-draws", c, err.Error())
+			t.Errorf("violation (replay %s): %v", p, err)
+		}
+	})
+	if t.Failed() {
 		return
 	}
 	t.Run("stalled-os-source", func(t *testing.T) {
@@ -460,4 +494,16 @@ type stallReader struct {
 func (s stallReader) Read(p []byte) (int, error) {
 	time.Sleep(s.d)
 	return s.r.Read(p)
+}
+
+// countingReader counts the bytes the OS source hands out.
+type countingReader struct {
+	r io.Reader
+	n int64
+}
+
+func (c *countingReader) Read(p []byte) (int, error) {
+	k, err := c.r.Read(p)
+	atomic.AddInt64(&c.n, int64(k))
+	return k, err
 }
